@@ -33,7 +33,7 @@ pub fn tx_sock_cfg() -> BoxedStrategy<SockCfg> {
         .prop_flat_map(|v6| {
             (
                 // half of the cases without MTU probing (link <= protocol minimum)
-                prop_oneof![3 => Just(if v6 { 1280u16 } else { 576u16 }), 1 => if v6 { (69u16..1280).boxed() } else { (49u16..576).boxed() }, 4 => gens::link_mtu(v6)],
+                prop_oneof![3 => Just(if v6 { 1280u16 } else { 576u16 }), 1 => if v6 { (78u16..1280).boxed() } else { (58u16..576).boxed() }, 4 => gens::link_mtu(v6)],
                 prop_oneof![3 => Just(32u32 * 1024), 1 => 64u32..4096, 1 => 4096u32..300_000],
                 prop_oneof![3 => Just(1u32 << 20), 1 => 256u32..4096, 1 => 4096u32..300_000],
                 prop::bool::weighted(0.7),
